@@ -19,8 +19,9 @@ def stripCompression (name : List Char) : List Char :=
 /-- `fileformat_from_path` on the lower-cased characters of the path -/
 def formatFromChars (path : List Char) : Option Fmt :=
   let name := stripCompression path
-  if ".fasta".toList.isSuffixOf name || ".fa".toList.isSuffixOf name || ".fna".toList.isSuffixOf name then some .fasta
-  else if ".fastq".toList.isSuffixOf name || ".fq".toList.isSuffixOf name then some .fastq
+  if ".fasta".toList.isSuffixOf name || ".fa".toList.isSuffixOf name || ".fna".toList.isSuffixOf name
+      || ".csfasta".toList.isSuffixOf name || ".csfa".toList.isSuffixOf name then some .fasta
+  else if ".fastq".toList.isSuffixOf name || ".fq".toList.isSuffixOf name || "_sequence.txt".toList.isSuffixOf name then some .fastq
   else none
 
 def formatFromPath (path : String) : Option Fmt := formatFromChars path.toLower.toList
